@@ -96,8 +96,13 @@ func (c *nullConn) SetWriteDeadline(time.Time) error { return nil }
 
 func idOf(s string) uuid.UUID { return uuid.OfflinePlayerUUID("verif-" + s) }
 
-// spell returns a case variant of the lower-cased name for the k-th connection.
-func spell(lname string, k int) string {
+// The model's symbolic names stand for real user names whose letters include the
+// alphabet boundaries (a, z), a digit and an underscore.
+var realName = map[string]string{"bob": "zab_z9", "al": "a_zy0", "cy": "m_z"}
+
+// spell returns a case variant of the (lower-case) real name for the k-th connection.
+func spell(name string, k int) string {
+	lname := realName[name]
 	switch k % 3 {
 	case 0:
 		return strings.ToUpper(lname[:1]) + lname[1:]
@@ -106,6 +111,9 @@ func spell(lname string, k int) string {
 	}
 	return strings.ToUpper(lname)
 }
+
+// otherSpelling is what lookups by name use: upper case except the first letter.
+func otherSpelling(lname string) string { return lname[:1] + strings.ToUpper(lname[1:]) }
 
 var insideLock = map[string]bool{"reg.register.insert": true, "reg.unregister.locked": true}
 
@@ -143,7 +151,7 @@ func (r *runner) run(n int, s schedule) {
 		spelled[c] = spell(p.Name, k)
 		// the lower-cased name is computed with the Go standard library, not gate
 		conns = append(conns, tracefmt.Rec{"c": c, "id": p.Id, "name": strings.ToLower(spelled[c]), "spelled": spelled[c]})
-		idset[p.Id], nameset[p.Name] = true, true
+		idset[p.Id], nameset[strings.ToLower(spelled[c])] = true, true
 	}
 	r.tw.Emit(tracefmt.Rec{"ev": "reset", "n": n, "kick": s.Kick, "online": s.Online, "conns": conns,
 		"prog": s.Prog, "sched": s.Sched, "origin": s.Origin, "free": s.Free})
@@ -220,7 +228,7 @@ func (r *runner) run(n int, s schedule) {
 				idl = append(idl, [2]string{k, connName(px.Player(idOf(k)))})
 			}
 			for _, k := range sortedKeys(nameset) {
-				nml = append(nml, [2]string{k, connName(px.PlayerByName(strings.ToUpper(k[:1]) + k[1:]))})
+				nml = append(nml, [2]string{k, connName(px.PlayerByName(otherSpelling(k)))})
 			}
 			rec["ids"], rec["names"] = idl, nml
 			rec["count"] = px.PlayerCount()
